@@ -541,7 +541,7 @@ class TeX(object):
         """
         # Since the true content always comes first, we need to set
         # True to case 0 and False to case 1.
-        elsefound = False
+        elsecase = None
         if isinstance(which, bool):
             if which: which = 0
             else: which = 1
@@ -568,6 +568,7 @@ class TeX(object):
                 nesting -= 1
             elif not(nesting) and name == 'else':
                 cases.append([])
+                elsecase = len(cases) - 1
                 continue
             elif not(nesting) and name == 'or':
                 cases.append([])
@@ -579,7 +580,14 @@ class TeX(object):
             log.warning(r'\end occurred when \if was incomplete')
 
         # else case for ifs without elses
-        cases.append([])
+        if elsecase is None:
+            cases.append([])
+            elsecase = len(cases) - 1
+
+        # A selector that is not one of the listed cases (\ifcase with a
+        # negative or too large number) takes the else case
+        if which < 0 or which >= elsecase:
+            which = elsecase
 
         # Push if-selected tokens back into tokenizer
         self.pushTokens(cases[which])
